@@ -94,6 +94,19 @@ def main(ck, tier, w):
             ck.violation('undisturbed run fails: ' + r.stderr[-300:], {'callback': cb, 'observed': r.brief(), 'tags': []})
             return
         good[cb] = r.files
+    # exit 0 => complete output, also when an earlier failed run left (longer) tmp files behind in the same folder
+    for cb in FILECB:
+        dump = w.mk('out')
+        for name, data in good[cb].items():
+            with open(os.path.join(dump, name.split('-')[0] + '.csv.tmp'), 'wb') as f:
+                f.write(data * 3 + b'partial row without newline')
+        r = run.run_parser(d.path, cb, dump=dump)
+        ck.evals()
+        probs = judge(cb, r, good[cb], final_names(cb, 0, n - 1))
+        if probs:
+            ck.violation('run into a folder holding tmp files of an earlier failed run (%s): %s' % (cb, '; '.join(probs)),
+                         {'callback': cb, 'observed': r.brief(), 'tags': []})
+
     ck.cov['rule'] = ('faults enumerated on the real binary: (height x kind) input faults, RLIMIT_FSIZE sweep, abort at every '
                       'event boundary, SIGKILL at random delays; each post-mortem state judged by the invariants checked in '
                       'MC_Fault; non-trivial = distinct (callback, fault kind, fault point)')
